@@ -53,6 +53,11 @@ checks.update({
  "C10": dict(technique=FL_TECH + "; C10 = recorded answers of every getter of the passed-in Spec equal those of analysis.New(document)",
    text="model_checking (trace validation): after every successful run all index getters (references by kind, patterns, enums, schemas with resolution through the library, allOfs), operations, ids, media types and paths of the Spec handed to Flatten are recorded next to those of a fresh analysis; TLC requires equality.",
    note=FL_NOTE, ref="7/C10"),
+ "C09": dict(category="fault_enumeration",
+   technique="TLA+ pipeline/fault model (Faults.tla: phases, document loads, failAt, ContinueOnError; TLC exhaustive with liveness Terminates and invariant FailSafe) bound by fault enumeration on the real code: every k-th document load failed through spec.PathLoader, crash/hang attribution in worker sub-processes, recorded outcomes validated by TLC (Trace_Faults)",
+   text="fault_enumeration: Flatten (all modes, +-RemoveUnused, +-ContinueOnError) runs in isolated workers on bundles of W, of W+ (arbitrary and nested anonymous pointers, back references, dangling remote/anonymous $refs, container recursion), on TLC-enumerated scenarios and on the fixtures; panics, fatal errors (stack overflow) and hangs (10 s, confirmed 20 s in a fresh process) are attributed to the call; for a subset every load position k in 1..L is failed in turn; analysis.New runs on every document; TLC checks each recorded call against the contract of the fault model.",
+   note="Trusted: the worker pool's crash attribution; spec.PathLoader as the single loading point; generator's knowledge of which $refs it made unresolvable. Local '#/definitions/<missing>' references are outside the claim (interpretation, DESIGN.md). Full expansion of the azure fixtures is skipped (finite but astronomically large). Schema() termination is exercised through C20's check and through full flattening here.",
+   ref="7/C09"),
 })
 
 def check_entry(pid, c):
